@@ -180,6 +180,19 @@ def gen_case(seed, profile_weights, tier, tol_lo=None):
     case['block'] = block
     case['knobs'] = knobs
     case['meta'] = {'q': meta['q'], 'n': meta['n'], 'nonlinear': meta['nonlinear']}
+    if S['swarm'].random() < 0.15 and profile in ('contractive', 'contractive_plain', 'mixed', 'hazard', 'cap_small'):
+        # solver reuse: a different block (other variable names, other tolerance line) was solved on it before
+        pre, _m = gen_block(S['prelude'], 'contractive', T=S['prelude'].randint(1, 3), n=S['prelude'].randint(1, 3),
+                            rich=False, allow_user_t=False, tol_text=S['prelude'].choice(['1e-2', '1e-3', '.01', None]))
+        import re
+        ren = {v: 'pre_' + v for v in eqn.block_vars(pre)}
+
+        def rn(txt):
+            return re.sub(r'[A-Za-z_][A-Za-z_0-9]*', lambda m: ren.get(m.group(0), m.group(0)), txt)
+        pre = {'eqs': [[ren[v], rn(r_)] for v, r_ in pre['eqs']], 'lags': [[ren[l], ren[s_], st] for l, s_, st in pre['lags']],
+               'ics': [[ren[v], t_] for v, t_ in pre['ics']], 'exo': [[ren[v], t_] for v, t_ in pre['exo']],
+               'maxtime': pre['maxtime'], 'err_tol': pre['err_tol']}
+        knobs['prelude'] = pre
     if profile == 'chaos':
         where = S['faults'].random()
         if where < 0.6:
@@ -207,7 +220,7 @@ def simplify_knobs(case):
         c = core.deep_copy(case)
         c['block']['maxtime'] = case['block']['maxtime'] - 1
         yield c
-    for key in ('trace_step', 'cap', 'tol_param', 'maxtime_attr'):
+    for key in ('trace_step', 'cap', 'tol_param', 'maxtime_attr', 'prelude'):
         if kn.get(key) is not None:
             c = core.deep_copy(case)
             c['knobs'][key] = None
@@ -294,7 +307,8 @@ def base_stats(case, rec):
           'periods_solved': eqn.reported_periods(rec, case.get('drive')),
           'sweeps_counted': sum(rec['ticks'].values()) if rec['ticks'] else 0,
           'chaos_calls': rec['chaos_calls'], 'faults_fired': dict(rec['fired']),
-          'reduction_on': 1 if case['knobs'].get('reduction', True) else 0}
+          'reduction_on': 1 if case['knobs'].get('reduction', True) else 0,
+          'solver_reused': 1 if case['knobs'].get('prelude') is not None else 0}
     probes = {}
     if rec['ticks'] and max(rec['ticks'].values()) > 11:
         probes['half_step_damping_reached'] = 1
